@@ -209,9 +209,68 @@ fn main() {
             let out = arg(a, "--out").expect("--out");
             let only: Option<usize> = arg(a, "--only").map(|s| s.parse().unwrap());
             std::fs::create_dir_all(&out).unwrap();
-            let mut cases = BufWriter::new(File::create(format!("{}/cases.txt", out)).unwrap());
-            let mut implo = BufWriter::new(File::create(format!("{}/impl.out", out)).unwrap());
-            let mut meta = BufWriter::new(File::create(format!("{}/meta.txt", out)).unwrap());
+            // The real simulator may not return (that is a C19 violation in itself): the cases run in a
+            // child process that reports the case it is working on; the supervisor kills a child that
+            // makes no progress, records the case, and restarts after it.
+            let from: usize = arg(a, "--from").map(|s| s.parse().unwrap()).unwrap_or(0);
+            let progress = format!("{}/progress.txt", out);
+            if std::env::var("VH_SIM_CHILD").is_err() {
+                let exe = std::env::current_exe().unwrap();
+                let mut from = 0usize;
+                let mut hangs = 0usize;
+                let stall = std::time::Duration::from_secs(std::env::var("VH_SIM_STALL").ok().and_then(|s| s.parse().ok()).unwrap_or(8));
+                loop {
+                    let _ = std::fs::remove_file(&progress);
+                    let mut cmd = std::process::Command::new(&exe);
+                    cmd.args(&args[1..]).arg("--from").arg(from.to_string()).env("VH_SIM_CHILD", "1");
+                    let mut child = cmd.spawn().expect("spawn sim child");
+                    let mut last = (String::new(), std::time::Instant::now());
+                    let status = loop {
+                        std::thread::sleep(std::time::Duration::from_millis(50));
+                        if let Some(st) = child.try_wait().unwrap() {
+                            break Some(st);
+                        }
+                        let cur = std::fs::read_to_string(&progress).unwrap_or_default();
+                        if cur != last.0 {
+                            last = (cur, std::time::Instant::now());
+                        } else if last.1.elapsed() > stall {
+                            let _ = child.kill();
+                            let _ = child.wait();
+                            break None;
+                        }
+                    };
+                    if status.map_or(false, |s| s.success()) {
+                        break;
+                    }
+                    let k: usize = std::fs::read_to_string(&progress).ok().and_then(|s| s.trim().parse().ok()).unwrap_or(from);
+                    let mut meta = std::fs::OpenOptions::new().append(true).create(true).open(format!("{}/meta.txt", out)).unwrap();
+                    let what = if status.is_none() { format!("made no progress for {} s (sim_advanced does not return or the run never stops)", stall.as_secs()) } else { "crashed the harness process (abort, stack overflow or out of memory)".to_string() };
+                    if prop == "C19" {
+                        writeln!(meta, "violation case={} the simulation {}", k, what).unwrap();
+                    } else {
+                        writeln!(meta, "panic case={} the simulation {}", k, what).unwrap();
+                    }
+                    from = k + 1;
+                    hangs += 1;
+                    // a few such cases establish the failure; the rest of the run would only cost time
+                    if from >= n || only.is_some() || hangs >= 3 {
+                        writeln!(meta, "summary cases={} nontrivial=0 violations=1 panics=0 events=0", n).unwrap();
+                        break;
+                    }
+                }
+                return;
+            }
+            let open = |name: &str| {
+                let p = format!("{}/{}", out, name);
+                if from > 0 {
+                    std::fs::OpenOptions::new().append(true).create(true).open(p).unwrap()
+                } else {
+                    File::create(p).unwrap()
+                }
+            };
+            let mut cases = BufWriter::new(open("cases.txt"));
+            let mut implo = BufWriter::new(open("impl.out"));
+            let mut meta = BufWriter::new(open("meta.txt"));
             let mut master = SplitMix64::new(prop_seed(&prop, seed));
             let (mut viol, mut panics, mut events) = (0usize, 0usize, 0usize);
             let mut nontrivial = HashSet::new();
@@ -225,6 +284,13 @@ fn main() {
                         continue;
                     }
                 }
+                if i < from {
+                    continue;
+                }
+                cases.flush().unwrap();
+                implo.flush().unwrap();
+                meta.flush().unwrap();
+                std::fs::write(&progress, i.to_string()).unwrap();
                 let c = if i < corpus.len() { corpus[i].clone() } else { sim::gen_sim_case(&prop, &mut r) };
                 let run = sim::run_sim(&c);
                 let toks = sim::enc_sim_case(&c, &run);
